@@ -181,7 +181,7 @@ type task struct{ prefix []int }
 
 // Watchdog bounds one execution; an execution that exceeds it is reported under the
 // clause "hang" (and its goroutine abandoned). Generous: executions take microseconds.
-var Watchdog = 60 * time.Second
+var Watchdog = 240 * time.Second // generous: a loaded machine must not turn a slow execution into a "hang"; real hangs never end
 
 // RunOne executes the scenario once with the given full choice vector.
 func RunOne(scn func(*Ctx), choices []int, replay bool) *Ctx {
